@@ -218,20 +218,25 @@ pub fn run() {
                             _ => {}
                         }
                     }
-                    let hold_at = 3 - before.chars().filter(|c| "rkl".contains(*c)).count();
-                    let mut reads = 0usize;
+                    use crate::provision::ProvisionFlags;
+                    let have = pv.get_state().await.unwrap_or(ProvisionFlags::NONE);
+                    let missing: Vec<char> = [('r', ProvisionFlags::REDIRECTOR_READY), ('k', ProvisionFlags::KEY_LATCH_READY), ('l', ProvisionFlags::LISTENER_READY)]
+                        .iter().filter(|(_, f)| !have.contains(f.clone())).map(|(c, _)| *c).collect();
+                    if missing.is_empty() {
+                        "nothing-missing".to_string()
+                    } else {
+                    // the status actor is held once, at the first status read after this point: the deadline handler's
+                    let mut held = false;
                     crate::shared_state::verif_actor::set_hook(Some(Box::new(move |actor, kind| {
-                        if actor == "agent_status" && kind == "other" {
-                            reads += 1;
-                            if reads == hold_at {
-                                std::thread::sleep(std::time::Duration::from_millis(400));
-                            }
+                        if actor == "agent_status" && kind == "other" && !held {
+                            held = true;
+                            std::thread::sleep(std::time::Duration::from_millis(400));
                         }
                     })));
                     let (pv1, st1) = (pv.clone(), st.clone());
                     let w1 = tokio::spawn(async move { crate::provision::provision_timeup(None, pv1, st1).await });
                     tokio::time::sleep(std::time::Duration::from_millis(120)).await;
-                    for f in "rkl".chars().filter(|c| !before.contains(*c)) {
+                    for f in missing {
                         match f {
                             'r' => crate::provision::redirector_ready(ct.clone(), kk.clone(), tl.clone(), pv.clone(), st.clone()).await,
                             'k' => crate::provision::key_latched(ct.clone(), kk.clone(), tl.clone(), pv.clone(), st.clone()).await,
@@ -242,6 +247,7 @@ pub fn run() {
                     let _ = w1.await;
                     crate::shared_state::verif_actor::set_hook(None);
                     format!("{}", if second_done_first { "overlapped" } else { "sequential" })
+                    }
                 }
                 ["prov", "msg", what, rest @ ..] => {
                     use crate::provision::ProvisionFlags;
